@@ -61,6 +61,14 @@ CHECKS = {
   text="Policy tables extracted by partial evaluation of every merger routine per policy-enum member (arrays, Arrays-of-Hashes, sets, hashes at the merge point and below hash keys, per value kind) and compared with the documented meaning of each member; precedence ladders of the five MergerConfig accessors (rule > CLI > config default > built-in default, one option name, one enum class, documented defaults); every raise is MergeException and every impossible kind combination is refused; from_str normal form across nine enums. Equality of the merged document with the reference result is declined.",
   note="Trusted base: ruamel container API; configparser/argparse deliver option strings.",
   technique="partial evaluation per enum member (decision-table extraction) + ladder/normal-form comparison across sibling functions"),
+ "C10": dict(
+  text="The anchor-conflict dispatcher is specialised per AnchorConflictResolutions member and each residual must be the documented action with the documented argument roles (which document is edited, which node replaces which); guard by inequality and unification of equal anchors; loop-exit-witness postcondition of the unique-name routine and the name pool handed to it; agreement of the three anchor tree walkers on container kinds, keys and values. Alias object-graph behaviour and the emitter are declined.",
+  note="Trusted base: ruamel.yaml's representation of anchors/aliases as shared objects.",
+  technique="partial evaluation per enum member with argument-role comparison + loop postcondition + sibling traversal agreement"),
+ "C11": dict(
+  text="Root re-binding only under is_root, target discovery through the optional-match query seeded with the right document, exhaustive right-root-kind dispatch with (merge point, target, right document), MergeException when nothing merged, re-basing of rule and key paths on the merge point, zero-exit-state guard of the yaml-merge write. Value equality of the complement of the target subtrees is declined.",
+  note="Trusted base: C09 (only the missing tail is created by the target query).",
+  technique="guard dominance + exhaustive-dispatch and dataflow-role rules over the AST; abstract exit-state interpretation for the write guard"),
 }
 
 NOT_BUILT = "check not built yet (framework under construction; will be claimed at clause level per DESIGN.md)"
